@@ -472,12 +472,13 @@ pub fn reduced_alphabet(quick: bool) -> Vec<KOp> {
 
 fn closure_bfs<S: SetLike>(ctx: &mut Ctx, quick: bool) {
     let sys = Arc::new(KbSys::<S> { alphabet: reduced_alphabet(quick), _s: std::marker::PhantomData });
-    let g = bfs(&*sys, false, 3_000_000);
-    if g.capped && g.bads.is_empty() {
-        ctx.machinery(&format!("closure bfs {}: state cap hit without closing the search", S::NAME));
+    let cap = if quick { 400_000 } else { 1_500_000 };
+    let g = bfs(&*sys, false, cap);
+    if g.capped {
+        ctx.cap_hit(&format!("closure bfs {}", S::NAME), cap);
     }
     // stateright cross-check only in the quick-sized instance (its per-state property evaluation doubles the work)
-    let sr = if quick && !g.capped { Some(stateright_bfs(sys.clone(), 3_000_000)) } else { None };
+    let sr = if quick && !g.capped { Some(stateright_bfs(sys.clone(), cap)) } else { None };
     if let Some(sr) = &sr {
         if g.bads.is_empty() && sr.unique_states != g.states.len() {
             ctx.machinery(&format!("closure bfs {}: explorers disagree on state count ({} vs {})", S::NAME, g.states.len(), sr.unique_states));
